@@ -17,6 +17,9 @@ PATTERNS = {
     "both-names": {"composeinfo.json": "info", "images.json": "images", "image-manifest.json": "images2", "rpms.json": "rpms", "rpm-manifest.json": "rpms2"},
     "no-info": {"images.json": "images", "rpms.json": "rpms"},
     "bad-images": {"composeinfo.json": "info", "images.json": "garbage", "rpms.json": "notjson", "modules.json": "listdoc"},
+    # valid JSON with a valid header, wrong container types below it (each loader fails in a different way)
+    "bad-containers": {"composeinfo.json": "ci_variants_list", "images.json": "images_list", "rpms.json": "rpms_nopayload", "modules.json": "modules_str"},
+    "bad-paths": {"composeinfo.json": "ci_paths_str", "images.json": "images_cell_dict", "rpms.json": "rpms_cell_list"},
     "empty": {},
 }
 
@@ -69,6 +72,30 @@ def _contents():
     out["garbage"] = '{"header": {"version": "1.2", "type": "productmd.images"}, "payload": {"compose": {}, "images": {}}}'
     out["notjson"] = "this is not json {"
     out["listdoc"] = '{"header": {"version": "1.2", "type": "productmd.rpms"}, "payload": []}'
+    d = json.loads(ci)
+    d["payload"]["variants"] = list(d["payload"]["variants"])
+    out["ci_variants_list"] = json.dumps(d)
+    d = json.loads(ci)
+    for v in d["payload"]["variants"].values():
+        v["paths"]["os_tree"] = "Server/x86_64/os"
+    out["ci_paths_str"] = json.dumps(d)
+    d = json.loads(out["images"])
+    d["payload"]["images"] = [d["payload"]["images"]]
+    out["images_list"] = json.dumps(d)
+    d = json.loads(out["images"])
+    d["payload"]["images"]["Server"]["x86_64"] = {"0": d["payload"]["images"]["Server"]["x86_64"][0]}
+    out["images_cell_dict"] = json.dumps(d)
+    d = json.loads(out["rpms"])
+    del d["payload"]
+    out["rpms_nopayload"] = json.dumps(d)
+    d = json.loads(out["rpms"])
+    for v in d["payload"]["rpms"].values():
+        for a in list(v):
+            v[a] = [v[a]]
+    out["rpms_cell_list"] = json.dumps(d)
+    d = json.loads(out["modules"])
+    d["payload"]["modules"] = "none"
+    out["modules_str"] = json.dumps(d)
     return out
 
 
